@@ -2,6 +2,9 @@ import WpModel.Drive.Loop
 import WpModel.Drive.LineBreak
 import WpModel.Drive.InlineRun
 import WpModel.Drive.Hyphenate
+import WpModel.Drive.LineVertical
+import WpModel.Drive.LineFloats
 
 def main : IO Unit :=
-  Wp.Drive.runDriver [Wp.Drive.LineBreak.handle, Wp.Drive.InlineRun.handle, Wp.Drive.Hyphenate.handle]
+  Wp.Drive.runDriver [Wp.Drive.LineBreak.handle, Wp.Drive.InlineRun.handle, Wp.Drive.Hyphenate.handle,
+    Wp.Drive.LineVertical.handle, Wp.Drive.LineFloats.handle]
